@@ -21,7 +21,7 @@ FAMILIES_FOR = {
     "C09": ["events"],
     "C10": ["terminal", "teval"],
     "C11": ["core", "budget"],
-    "C12": ["observer"],
+    "C12": ["observer", "teval", "lowlevel"],
     "C13": ["symmetry"],
     "C15": ["storage"],
     "C18": ["core", "lowlevel", "adversarial"],
@@ -181,6 +181,9 @@ def signature(prop, clause, call, ret):
         extra = "+tinysteps"
     if call.get("tinyspan"):
         extra += "+tinyspan"
+    st = (ret or {}).get("status", (ret or {}).get("why", ""))
+    if st and st != "Success":
+        extra += "@" + str(st)
     return f"{prop}/{clause}/{call['method']}/{call['api']}/{call['problem']}/{tags}{extra}"
 
 
